@@ -392,6 +392,24 @@ func init() {
 			"counter-based KeyGenerator (utils.UUIDv4 needs crypto/rand); internal/storage/memory on the virtual clock",
 					},
 	}
+	c11Pkgs := []string{"github.com/gofiber/fiber/v3", "github.com/gofiber/fiber/v3/binder"}
+	props["C11"] = PropSpec{
+		ID: "C11",
+		Runs: []HarnessRun{
+			{Rel: "client", Dir: "client", Entry: "VH_C11_roundtrip", Cases: tierCases([]int{0, 1, 2, 3, 8, 9, 16}, []int{0, 1, 2, 3, 8, 9, 10, 11, 16, 17, 18, 19, 24, 25, 26, 27}), Reach: []string{"bound"}, MaxPaths: 300000, ExtraPkgs: c11Pkgs},
+			{Rel: "client", Dir: "client", Entry: "VH_C11_select", Cases: tierCases([]int{0, 1, 2}, []int{0, 1, 2}), Reach: []string{"decoded"}, MaxPaths: 100000, ExtraPkgs: c11Pkgs},
+			{Rel: "client", Dir: "client", Entry: "VH_C11_total", Cases: tierCases([]int{0, 1, 2, 3, 4, 8, 9}, []int{0, 1, 2, 3, 4, 8, 9, 10, 11, 12}), Reach: []string{"accepted", "rejected"}, MaxPaths: 300000, ExtraPkgs: c11Pkgs},
+		},
+		Bounds: map[string]string{
+			"quick":    "round trip: keys ka (two values, 0..2 and 0..1 symbolic bytes) and kb (0..1 bytes) through query, urlencoded form, header and cookie, splitting off/on, map[string][]string and map[string]string targets; body dispatch json/xml/cbor with a 0..3-byte payload; totality: arbitrary query (0..5 bytes), form body (0..5), Cookie header (0..5), Content-Type (0..5 seven-bit bytes), header value (0..4)",
+			"thorough": "all source x splitting x target combinations",
+		},
+		Assumptions: []string{
+			"reflection is outside the engine: the client's SetValWithStruct and the server's schema decoder (string <-> typed field conversion, struct tags, nested structs) are not executed; the server binds into map targets, for which binder.parse/equalFieldType run as real code over a type-inspection-only reflect bridge",
+			"json/xml/cbor codecs are replaced by harness marshal/decoder functions (Config.JSONDecoder etc.); multipart bodies outside",
+			"header values: visible bytes without leading/trailing blank; cookie values: RFC 6265 cookie-octets (HTTP cannot carry others verbatim)",
+		},
+	}
 	props["SMOKEFAIL"] = PropSpec{
 		ID: "SMOKEFAIL",
 		Runs: []HarnessRun{
